@@ -455,6 +455,7 @@ func TestC19(t *testing.T) {
 	h.Rule("A1 load-form-value: value tree (numbers incl. boundary fixnums, bignums, ratios, floats; strings over an alphabet with " +
 		"quote, backslash, bar, newline, non-ASCII; symbols incl. names of special layouts; characters; lists, dotted lists, vectors, " +
 		"2-3 dimensional arrays, hash tables; depth <= 3) built through slip's Go constructors x right margin 20..120. " +
+		"A1b literal-value: a vector (1-4 elements, the first a list headed by a symbol of the special layouts or any container; symbols incl. names that need bars) or a list, written the way a snapshot writes a variable that holds a literal: (setq name #(...)) / (setq name '(...)) or the bare value, pretty printed at margin 20..120, read, evaluated, compared with the value. " +
 		"A2 load-form-code: closed typed programs of the shared program generator (let let* cond do do* dotimes dolist lambda progn " +
 		"case multiple-value-bind ...) as data form, compiled call object or lambda object, and every kind of definition form of " +
 		"part B, x margin. A3 load-form-defs: generated packages, flavors with methods and instances, classes with instances, generic " +
@@ -467,6 +468,7 @@ func TestC19(t *testing.T) {
 	h.Assume("os/exec starts an independent process; the three workers of a case share nothing but the snapshot files")
 
 	h.RunProp(t, valueProp, h.N(8000, 40000))
+	h.RunProp(t, literalProp, h.N(6000, 30000))
 	h.RunProp(t, codeProp, h.N(4000, 20000))
 	h.RunProp(t, defsProp, h.N(1500, 5000))
 	h.RunProp(t, snapProp, h.N(150, 300))
